@@ -165,7 +165,7 @@ fn hostile_files() -> BoxedStrategy<Vec<ModelFile>> {
         hostile_dir(),
         hostile_base(),
         prop_oneof![5 => Just(0o100644u16), 1 => Just(0o040755u16), 3 => Just(0o120777u16), 1 => proptest::sample::select(vec![0o010644u16, 0o020644, 0o060644, 0o140644, 0o000644, 0o170644])],
-        proptest::sample::select(vec!["/outside", "../../outside", "/", "..", "/etc", "outside/x", "../../../../../../../../../outside/dir", "/d1", "."]),
+        proptest::sample::select(vec!["/outside", "../../outside", "/", "..", "/etc", "outside/x", "../../../../../../../../../outside/dir", "/d1", ".", "/outside/victim", "/dangling-at-root", "../../../../../../../../../outside/dir/new", "/etc/passwd", "/outside/keep.txt", "/no/such/dir/x"]),
         proptest::collection::vec(any::<u8>(), 0..12),
     )
         .prop_map(|(dir, base, mode, target, content)| {
@@ -184,6 +184,37 @@ fn hostile_files() -> BoxedStrategy<Vec<ModelFile>> {
             v
         })
         .boxed()
+}
+
+const LINK_TARGETS: [&str; 16] = ["/outside", "../../outside", "/", "..", "/etc", "outside/x", "../../../../../../../../../outside/dir", "/d1", ".", "/outside/victim", "/dangling-at-root", "../../../../../../../../../outside/dir/new", "/etc/passwd", "/outside/keep.txt", "/no/such/dir/x", "sibling"];
+
+/// systematic "symlink, then something at or below it" packages (no other hostile ingredient, so
+/// that extraction really reaches the second entry)
+fn link_game(i: u64) -> Option<C12Case> {
+    let target = LINK_TARGETS[(i % 16) as usize];
+    let follow = (i / 16) % 7;
+    let deep = (i / 16 / 7) % 2 == 1;
+    let dir = if deep { "/opt/app/" } else { "/" };
+    let mk = |dir: &str, base: &str, mode: u16, linkto: &str, content: &[u8]| ModelFile { dir: dir.into(), base: base.into(), mode, mtime: 1, flags: 0, user: "root".into(), group: "root".into(), linkto: linkto.into(), content: content.to_vec() };
+    let link = mk(dir, "link", 0o120777, target, target.as_bytes());
+    let below = format!("{dir}link/");
+    let second = match follow {
+        0 => mk(dir, "link", 0o100644, "", b"over the link"),
+        1 => mk(&below, "pwned", 0o100644, "", b"through the link"),
+        2 => mk(dir, "link", 0o040700, "", b""),
+        3 => mk(&below, "sub", 0o040700, "", b""),
+        4 => mk(dir, "link", 0o120777, "/outside/dir", b"/outside/dir"),
+        5 => mk(&below, "keep.txt", 0o100600, "", b"overwrite a sentinel"),
+        _ => mk(&below, "inner", 0o120777, "/etc", b"/etc"),
+    };
+    let mut files = vec![mk(dir, "first", 0o100644, "", b"a regular file first"), link, second];
+    if i / 16 / 7 / 2 == 1 {
+        files.push(mk(dir, "zlast", 0o100644, "", b"after the games"));
+    }
+    if i >= 16 * 7 * 2 * 2 {
+        return None;
+    }
+    Some(C12Case::Hostile { files })
 }
 
 impl Property for C12 {
@@ -219,6 +250,7 @@ impl Property for C12 {
                         .boxed()
                 }),
             },
+            Phase::Enumerate { name: "link-games", total: 16 * 7 * 2 * 2, exhaustive: true, gen: Arc::new(link_game) },
             Phase::Random { name: "hostile", cases: tier.pick(4_000, 80_000), strat: Arc::new(|| hostile_files().prop_map(|files| C12Case::Hostile { files }).boxed()) },
         ]
     }
